@@ -152,9 +152,54 @@ variable (s : Spec) (t : Template) (h : MHdr) (tid cnt scnt id len fid ty : Nat)
 @[simp] theorem f_elem_ty : fieldOf (.elem fid ty) "Type" = some (.int ty) := by simp [fieldOf]
 end fields
 
-/-- the evaluation rules of the interpreter, for `simp` -/
+section morefields
+variable (h : MHdr) (a : Bytes) (s : List Record)
+@[simp] theorem f_mhdr_len : fieldOf (.mhdr h) "Length" = some (.int h.len) := by simp [fieldOf]
+@[simp] theorem f_mhdr_et : fieldOf (.mhdr h) "ExportTime" = some (.int h.et) := by simp [fieldOf]
+@[simp] theorem f_mhdr_sq : fieldOf (.mhdr h) "SequenceNo" = some (.int h.sq) := by simp [fieldOf]
+@[simp] theorem f_mhdr_dom : fieldOf (.mhdr h) "DomainID" = some (.int h.dom) := by simp [fieldOf]
+@[simp] theorem f_msg_agent : fieldOf (.msg a h s) "AgentID" = some (.bytes a) := by simp [fieldOf]
+@[simp] theorem f_msg_hdr : fieldOf (.msg a h s) "Header" = some (.mhdr h) := by simp [fieldOf]
+@[simp] theorem f_msg_sets : fieldOf (.msg a h s) "DataSets" = some (.dsets s) := by simp [fieldOf]
+@[simp] theorem sf_msg_agent (b : Bytes) : setField (.msg a h s) "AgentID" (.bytes b) = some (.msg b h s) := by simp [setField]
+@[simp] theorem sf_msg_hdr (h' : MHdr) : setField (.msg a h s) "Header" (.mhdr h') = some (.msg a h' s) := by simp [setField]
+@[simp] theorem sf_msg_sets (s' : List Record) : setField (.msg a h s) "DataSets" (.dsets s') = some (.msg a h s') := by simp [setField]
+end morefields
+
+section setters
+variable (s : Spec) (t : Template) (h : MHdr) (tid cnt scnt id len n : Nat) (l : List Spec)
+@[simp] theorem sf_spec_id : setField (.spec s) "ElementID" (.int n) = some (.spec { s with id := n }) := by simp [setField]
+@[simp] theorem sf_spec_len : setField (.spec s) "Length" (.int n) = some (.spec { s with len := n }) := by simp [setField]
+@[simp] theorem sf_spec_ent : setField (.spec s) "EnterpriseNo" (.int n) = some (.spec { s with ent := n }) := by simp [setField]
+@[simp] theorem sf_thdr_tid : setField (.thdr tid cnt scnt) "TemplateID" (.int n) = some (.thdr n cnt scnt) := by simp [setField]
+@[simp] theorem sf_thdr_cnt : setField (.thdr tid cnt scnt) "FieldCount" (.int n) = some (.thdr tid n scnt) := by simp [setField]
+@[simp] theorem sf_thdr_scnt : setField (.thdr tid cnt scnt) "ScopeFieldCount" (.int n) = some (.thdr tid cnt n) := by simp [setField]
+@[simp] theorem sf_tpl_tid : setField (.tpl t) "TemplateID" (.int n) = some (.tpl { t with tid := n }) := by simp [setField]
+@[simp] theorem sf_tpl_cnt : setField (.tpl t) "FieldCount" (.int n) = some (.tpl { t with cnt := n }) := by simp [setField]
+@[simp] theorem sf_tpl_scnt : setField (.tpl t) "ScopeFieldCount" (.int n) = some (.tpl { t with scnt := n }) := by simp [setField]
+@[simp] theorem sf_tpl_fields : setField (.tpl t) "FieldSpecifiers" (.specs l) = some (.tpl { t with fields := l }) := by simp [setField]
+@[simp] theorem sf_tpl_scope : setField (.tpl t) "ScopeFieldSpecifiers" (.specs l) = some (.tpl { t with scope := l }) := by simp [setField]
+@[simp] theorem sf_shdr_id : setField (.shdr id len) "SetID" (.int n) = some (.shdr n len) := by simp [setField]
+@[simp] theorem sf_shdr_len : setField (.shdr id len) "Length" (.int n) = some (.shdr id n) := by simp [setField]
+@[simp] theorem sf_mhdr_ver : setField (.mhdr h) "Version" (.int n) = some (.mhdr { h with ver := n }) := by simp [setField]
+@[simp] theorem sf_mhdr_len : setField (.mhdr h) "Length" (.int n) = some (.mhdr { h with len := n }) := by simp [setField]
+@[simp] theorem sf_mhdr_et : setField (.mhdr h) "ExportTime" (.int n) = some (.mhdr { h with et := n }) := by simp [setField]
+@[simp] theorem sf_mhdr_sq : setField (.mhdr h) "SequenceNo" (.int n) = some (.mhdr { h with sq := n }) := by simp [setField]
+@[simp] theorem sf_mhdr_dom : setField (.mhdr h) "DomainID" (.int n) = some (.mhdr { h with dom := n }) := by simp [setField]
+end setters
+
+/-- `i--` on a 16-bit counter that is not 0 -/
+theorem subAt_u16_pred (i : Nat) (hi : i + 1 < 65536) : subAt .u16 (i + 1) 1 = some i := by
+  simp only [subAt, Option.some.injEq]
+  omega
+
+theorem subAt_int (a b : Nat) (h : b ≤ a) : subAt .int a b = some (a - b) := by
+  simp only [subAt, h, if_true]
+
+/-- the evaluation rules of the interpreter, for `simp` (`subAt` is rewritten by its own lemmas: `simp`'s arithmetic on
+`65536` is expensive) -/
 macro "ir_simp" "[" ls:Lean.Parser.Tactic.simpLemma,* "]" : tactic =>
-  `(tactic| simp [blk, exec, eval, evalList, evalArgs, zero, wrap, subAt, binInt, veq, lenV, indexV, appendV, elemsV,
+  `(tactic| simp [blk, exec, eval, evalList, evalArgs, zero, wrap, binInt, veq, lenV, indexV, appendV, elemsV,
       readLHS, writeLHS, writeAll, getPath, setPath, readSlots, refSlots, errReader, List.replicate, List.filter,
       errClasses, errConsts, List.lookup,
       ParamKind.hasSlot, builtin_rdU8, builtin_rdU16, builtin_rdU32, builtin_rdPeekU16, builtin_rdRead, $ls,*])
